@@ -2,6 +2,7 @@ import Csproto.Model.Hex
 import Csproto.Model.Dump
 import Csproto.Props.C03
 import Csproto.Proofs.Dec
+import Csproto.Proofs.Records
 /-
   C20 — Diagnostic tooling: annotated hex and protodump are faithful.
 -/
@@ -251,25 +252,6 @@ theorem dumpProto_no_panic (data : Bytes) (expand strs : List (List Nat)) :
 
 /-! ### one entry per field, in wire order, with number, wire type and value -/
 
-/-- a top-level record as a reference parser sees it -/
-inductive Rec where
-  | varint (tag v : Nat)
-  | fixed32 (tag v : Nat)
-  | fixed64 (tag v : Nat)
-  | len (tag : Nat) (b : Bytes)
-
-def Rec.OK : Rec → Prop
-  | .varint t v => 1 ≤ t ∧ t ≤ maxTagValue ∧ v < two64
-  | .fixed32 t v => 1 ≤ t ∧ t ≤ maxTagValue ∧ v < two32
-  | .fixed64 t v => 1 ≤ t ∧ t ≤ maxTagValue ∧ v < two64
-  | .len t b => 1 ≤ t ∧ t ≤ maxTagValue ∧ b.length ≤ maxFieldLen
-
-def Rec.wire : Rec → Bytes
-  | .varint t v => encTag t wtVarint ++ encVarint v
-  | .fixed32 t v => encTag t wtFixed32 ++ encFixed32 v
-  | .fixed64 t v => encTag t wtFixed64 ++ encFixed64 v
-  | .len t b => encTag t wtLen ++ (encVarint b.length ++ b)
-
 /-- what protodump must print for the record (no expand / strings paths) -/
 def Rec.entry (indent : Nat) : Rec → Bytes
   | .varint t v => asciiBytes s!"{indentStr indent}tag: {t}, wire type: {wtName wtVarint}\n" ++
@@ -285,9 +267,6 @@ def Rec.entry (indent : Nat) : Rec → Bytes
 theorem elInt64_any (v : Nat) (hv : v < two64) (rest : Bytes) :
     elInt64 (encVarint v ++ rest) = .ok (toI64 v, (encVarint v).length) := by
   unfold elInt64; rw [elVarint_enc v hv]; rfl
-
-theorem rec_wire_ne_nil (r : Rec) : r.wire ≠ [] := by
-  cases r <;> simp [Rec.wire, encTag, encVarint_ne_nil]
 
 /-- **One entry per field, in wire order, carrying the field number, wire type and value a
     reference parser finds** — for every sequence of well-formed records. -/
@@ -308,7 +287,7 @@ theorem dump_entries (rs : List Rec) (hrs : ∀ r ∈ rs, r.OK) :
     | fuel + 1, hf =>
       have hok := hrs r (by simp)
       have hmore : d.off < d.len := by
-        have := List.length_pos_iff.mpr (rec_wire_ne_nil r)
+        have := List.length_pos_iff.mpr (Rec.wire_ne_nil r)
         rw [h.len, h.off]; simp; omega
       simp only [List.map_cons, List.flatten_cons] at h ⊢
       have ih' := fun d2 pre2 => ih (fun q hq => hrs q (by simp [hq])) fuel d2 pre2 parent indent (by simp at hf; omega)
@@ -317,7 +296,7 @@ theorem dump_entries (rs : List Rec) (hrs : ∀ r ∈ rs, r.OK) :
       cases r with
       | varint t v =>
         obtain ⟨h1, ht, hv⟩ := hok
-        simp only [Rec.wire, List.append_assoc] at h
+        simp only [Rec.wire, Rec.tag, Rec.wt, Rec.body, Rec.chunk, List.append_assoc] at h
         have htag := Dec.tag_at h h1 ht (by decide)
         have hAt := h.advance
         have hval := Dec.scalar_at hAt (encVarint_ne_nil v) elInt64 .int (toI64 v) (elInt64_any v hv _)
@@ -330,7 +309,7 @@ theorem dump_entries (rs : List Rec) (hrs : ∀ r ∈ rs, r.OK) :
 
       | fixed32 t v =>
         obtain ⟨h1, ht, hv⟩ := hok
-        simp only [Rec.wire, List.append_assoc] at h
+        simp only [Rec.wire, Rec.tag, Rec.wt, Rec.body, Rec.chunk, List.append_assoc] at h
         have htag := Dec.tag_at h h1 ht (by decide)
         have hAt := h.advance
         have hval := Dec.scalar_at hAt (by simp [encFixed32, leBytes]) elFixed32 .nat v (elFixed32_enc v hv _)
@@ -344,7 +323,7 @@ theorem dump_entries (rs : List Rec) (hrs : ∀ r ∈ rs, r.OK) :
 
       | fixed64 t v =>
         obtain ⟨h1, ht, hv⟩ := hok
-        simp only [Rec.wire, List.append_assoc] at h
+        simp only [Rec.wire, Rec.tag, Rec.wt, Rec.body, Rec.chunk, List.append_assoc] at h
         have htag := Dec.tag_at h h1 ht (by decide)
         have hAt := h.advance
         have hval := Dec.scalar_at hAt (by simp [encFixed64, leBytes]) elFixed64 .nat v (elFixed64_enc v hv _)
@@ -359,7 +338,7 @@ theorem dump_entries (rs : List Rec) (hrs : ∀ r ∈ rs, r.OK) :
 
       | len t b =>
         obtain ⟨h1, ht, hb⟩ := hok
-        simp only [Rec.wire, List.append_assoc] at h
+        simp only [Rec.wire, Rec.tag, Rec.wt, Rec.body, Rec.chunk, List.append_assoc] at h
         have htag := Dec.tag_at h h1 ht (by decide)
         have hAt := h.advance
         have hAt' : Dec.At { d with off := d.off + (encTag t wtLen).length } (pre ++ encTag t wtLen)
